@@ -12,6 +12,7 @@ arrived or after the application's close(); plus C13's open-first (on_reconnect)
 External dispatcher: `harness/props/c15.py::external_scenarios` (real runs + Spec).
 """
 import itertools
+import json
 
 import appcheck
 import appsim
@@ -93,9 +94,40 @@ def announce_extra(ctx, sc, r):
             i += 1
 
 
+def silent_extra(ctx, sc, r):
+    """worlds with "Es" connections (established, then silence) under keepalive with a timeout: EVERY such connection of the run
+    — the first and each later one — is given up within two timeouts of its first unanswered ping, and a new attempt follows."""
+    seq = sc.get("tag", "").split("|")[0].split("-")
+    if "Es" not in seq or not sc.get("to") or not sc.get("iv") or sc.get("plan") or sc.get("closer") or sc.get("closer_line") is not None:
+        return
+    items = [it.partition(":") for it in r["trace"].split(";")] if r["trace"] else []
+    conn = -1
+    t_ping = None
+    for t, _, rest in items:
+        if rest.startswith("dial:"):
+            if t_ping is not None:
+                break
+            conn += 1
+            t_ping = None
+        elif rest.startswith("wrote:9:") and t_ping is None and 0 <= conn < len(seq) and seq[conn] == "Es":
+            t_ping = int(t)
+        elif t_ping is not None and (rest == "cb:on_error:eTIMEOUT" or rest == "pingStop" or rest.startswith("sleep:")):
+            if int(t) > t_ping + 2 * sc["to"] + 8:
+                break
+            t_ping = None
+    else:
+        if t_ping is None:
+            return
+    if t_ping is not None:
+        ctx.violate("retry", "silent-connection-never-given-up" + ("@external-dispatcher" if sc.get("ext") else ""), sc,
+                    f"connection #{conn}: ping/pong timeout noticed by tick {t_ping + 2 * sc['to']} (first unanswered ping at {t_ping}), then a new attempt",
+                    f"trace …{r['trace'][-300:]}", size=appcheck.size_of(sc))
+
+
 def extra(ctx, sc, r):
     n = appcheck.size_of(sc)
     halfdead_extra(ctx, sc, r)
+    silent_extra(ctx, sc, r)
     announce_extra(ctx, sc, r)
     if r["live_max"] > 1:
         ctx.violate("resources", appcheck.qualify("two-transports-open", sc), sc, "at most one live transport", f"max live = {r['live_max']}", size=n)
@@ -325,6 +357,36 @@ def external_extra(ctx, sc, r):
                     r["trace"][-300:], size=appcheck.size_of(sc))
 
 
+def header_scenarios(ctx):
+    """`header` given as a callable that FAILS on some attempt: that attempt failed like any other (nothing was dialled) —
+    the interval is waited and the next attempt follows; later connections are established and the run ends with the
+    server's close.  Real runs + oracle."""
+    scs = []
+    for seq in (("Ee", "Ee"), ("Ee", "R", "Ee"), ("Er", "Ee"), ("Ee", "Ee", "Ee")):
+        for at in ((1,), (2,), (1, 2)):
+            for rc in (TPS, 5 * TPS):
+                for ext in (False, True):
+                    sc = scenario(seq, rc, "close")
+                    sc.update(header_seq=True, header_raises=list(at), kind="header-raises", horizon=80 * TPS,
+                              tag=f"{'-'.join(seq)}|close|rc={rc}|header-raises@{','.join(map(str, at))}")
+                    if ext:
+                        sc["ext"] = True
+                    scs.append(sc)
+    return scs
+
+
+def header_extra(ctx, sc, r):
+    extra(ctx, sc, r)
+    items = [it.partition(":")[2] for it in r["trace"].split(";")] if r["trace"] else []
+    ndials = sum(1 for it in items if it.startswith("dial:"))
+    want = len(sc["runs"][0])
+    closes = [it for it in items if it.startswith("cb:on_close:")]
+    if ndials != want or any(it.startswith("raised:") for it in items) or not closes or "1000" not in closes[-1]:
+        ctx.violate("retry", "failing-header-provider-ends-the-run" + ("@external-dispatcher" if sc.get("ext") else ""), sc,
+                    f"{want} connections attempted, the run ends with the server's close (1000)",
+                    f"{ndials} dials; on_close: {closes[-1:]}; trace …{r['trace'][-300:]}", size=appcheck.size_of(sc))
+
+
 def run(ctx):
     ctx.rule = ("dial-outcome sequences to length 3 (thorough 4) over {refused, rejected, est+eof, est+reset, est+silence "
                 "(ping timeout), est+server close, est+protocol error} x r in {1 s, 5 s} x final {server-closed connection, "
@@ -339,6 +401,14 @@ def run(ctx):
                       nontrivial_of=lambda sc: len(sc["runs"][0]) > 1)
     appcheck.evaluate(ctx, "C15", closer_scenarios(ctx), cls_of=cls_of, extra_check=closer_extra, model=False,
                       nontrivial_of=lambda sc: True)
+    hscs = header_scenarios(ctx)
+    for sc, r in zip(hscs, appcheck.run_real_many(hscs)):
+        # (the handshake-header events of these runs are not part of the Spec's trace alphabet: own oracle only)
+        if r["abort"] == "skipped":
+            continue
+        ctx.case(key=json.dumps(sc, sort_keys=True), nontrivial=True, cls=cls_of(sc))
+        r = dict(r, trace=";".join(it for it in r["trace"].split(";") if not it.partition(":")[2].startswith("hs:")))
+        header_extra(ctx, sc, r)
     appcheck.evaluate(ctx, "C15", writes_fail_scenarios(ctx), cls_of=cls_of, extra_check=writes_fail_extra, model=False,
                       nontrivial_of=lambda sc: True)
 
